@@ -159,6 +159,39 @@ func (c11) Gen(tier string, seed int64, emit0 func([]Ev)) {
 			}
 			emit([]Ev{{"op": "tspes", "pkt": B(p[:])}})
 		}
+		// pairs in one history: an aligned PES start with data, then one whose header fills the payload exactly
+		// (no data at all): the answer for the second must not depend on the first
+		for k := 0; k < 60; k++ {
+			var h []Ev
+			for j := 0; j < 2; j++ {
+				sid := []int{0xe0, 0xc0, 0xbd}[r.Intn(3)]
+				pd := []int{0, 2, 3}[r.Intn(3)]
+				ex := r.Intn(6)
+				dl := 20 + r.Intn(100)
+				if j == 1 {
+					dl = 0
+				}
+				pesb := c11Pes(r, sid, pd, ex, dl, c11Time(r), c11Time(r))
+				pesb[6] |= 0x04 // data_alignment_indicator
+				if len(pesb) > 184 {
+					continue
+				}
+				var p packet.Packet
+				if len(pesb) == 184 {
+					r.Read(p[:])
+					p[3] = p[3]&0x0f | 0x10
+				} else {
+					p = pktWithAF(r, absAF{Len: 183 - len(pesb)}, true)
+				}
+				p[0] = 0x47
+				p[1] |= 0x40
+				copy(p[188-len(pesb):], pesb)
+				h = append(h, Ev{"op": "tspes", "pkt": B(p[:])})
+			}
+			if len(h) > 0 {
+				emit(h)
+			}
+		}
 	}
 }
 
